@@ -1,0 +1,6 @@
+//go:build !verif
+
+package sync
+
+// verifClosedDownloadCh is a no-op in normal builds (see verif_hooks_on.go).
+func verifClosedDownloadCh(ch chan EVMBlock) chan EVMBlock { return ch }
